@@ -71,9 +71,9 @@ def interpret_gate(fn, facts, catalog, gate_self):
 
 
 def fact_space():
-    for ent, ints, udf, ct in itertools.product(
-            ([], ['e']), (set(), {'int1'}, {'files'}, {'views'}, {'int1', 'int2'}), ([], ['f']), ('api', 'sql', 'no-class-type', 'not-in-catalog')):
-        facts = {'mdb_entities': ent, 'integrations': ints, 'predictors': [], 'user_functions': udf}
+    for ent, ints, udf, ct, preds in itertools.product(
+            ([], ['e']), (set(), {'int1'}, {'files'}, {'views'}, {'int1', 'int2'}), ([], ['f']), ('api', 'sql', 'no-class-type', 'not-in-catalog'), ([], ['p'])):
+        facts = {'mdb_entities': ent, 'integrations': ints, 'predictors': preds, 'user_functions': udf}
         catalog = {}
         for n in ('int1', 'int2', 'files', 'views'):
             catalog[n] = {'name': n}
@@ -84,7 +84,7 @@ def fact_space():
         elif ct == 'not-in-catalog':
             del catalog['int1']
         want = ent == [] and ints == {'int1'} and udf == [] and ct != 'api'
-        label = f"entities={len(ent)} integrations={sorted(ints)} udf={len(udf)} class_type={ct}"
+        label = f"entities={len(ent)} integrations={sorted(ints)} udf={len(udf)} class_type={ct}" + (' table-named-like-a-model' if preds else '')
         yield facts, catalog, want, label
 
 
@@ -92,7 +92,7 @@ def run(ctx):
     ctx.explanation = (
         'C11.gate: both sibling gates (QueryPlanner.check_single_integration, PlanJoin.check_single_integration) are interpreted on '
         'the full space of abstract facts {MindsDB entities present, integration set in {none, one, files, views, two}, UDF present, '
-        'class_type in {api, sql, absent, not in catalog}} (80 rows each) and must accept exactly the rows the statement names; '
+        'class_type in {api, sql, absent, not in catalog}, a table whose name coincides with a model} (160 rows each) and must accept exactly the rows the statement names; '
         'C11.one-step: on every accepting row the effects are exactly prepare_integration_select(<gate integration>, <analysed query>) '
         'followed by one add_step(FetchDataframeStep(integration=<gate integration>, query=<analysed query>)) and the caller returns at '
         'once (from_query returns self.plan, PlanJoin.plan returns the step) - on refusing rows no effect at all; '
@@ -240,7 +240,7 @@ def run(ctx):
     for f in bad:
         ctx.ob('C11.walker', f'{f.rule}:{f.construct}', False,
                f'the qualifier rewrite and the single-integration gate rely on query_traversal: {f.msg}', file=f.file, line=f.line, witness=f.witness)
-    ctx.floor('gate_rows', 160)
+    ctx.floor('gate_rows', 320)
     ctx.floor('callback_writes', 2)
     ctx.floor('walker_obligations', 100)
 
